@@ -29,10 +29,6 @@ impl AtomicU64 {
     pub fn fetch_add(&mut self, n: u64, ord: Ordering) -> (r: u64)
         ensures r == old(self).v, final(self).v as int == (old(self).v + n) % 0x1_0000_0000_0000_0000,
     { unimplemented!() }
-    #[verifier::external_body]
-    pub fn fetch_sub(&mut self, n: u64, ord: Ordering) -> (r: u64)
-        ensures r == old(self).v, final(self).v as int == (old(self).v - n) % 0x1_0000_0000_0000_0000,
-    { unimplemented!() }
 }
 pub struct AtomicU32 { pub v: u32 }
 impl AtomicU32 {
